@@ -83,6 +83,12 @@ def deep_program(rng, tier, asan=False):
          "vdestroy 8"])
     seq(["vxyz 5 1", "vvar 6", "vxyz 7 2", "mchainapply 8 5 6 7 1 %d" % deep2, "vmove 9 8", "vdestroy 8", "vdestroy 9",
          "vdestroy 7", "vdestroy 6", "vdestroy 5"])
+    # copy-assignment from a Tree stored inside the node the handle is the LAST owner of (t = t->lhs(), the
+    # idiom of walking down a tree): the old node must not be released before the new reference is taken
+    seq(["vxyz 5 0", "vxyz 6 1", "vunary 7 sin 5", "vunary 8 cos 6", "vbinary 9 mul 7 8", "vdestroy 7", "vdestroy 8",
+         "machild 9 1", "vsize 9", "machild 9 0", "vsize 9", "vdestroy 9", "vdestroy 6", "vdestroy 5"])
+    seq(["vxyz 5 2", "mchainun 6 5 %s 200" % rng.choice(["sin", "exp"])] + ["machild 6 0"] * 40 +
+        ["vsize 6", "vdestroy 6", "vdestroy 5"])
     # optimise + print a moderately deep chain, evaluator on a 2000-deep one
     m = 20000 if not asan else 5000
     seq(["vxyz 5 0", "mchainun 6 5 sin %d" % m, "vopt 7 6", "vprint 6", "vdestroy 6", "vdestroy 7", "vdestroy 5"])
